@@ -378,8 +378,12 @@ async def online_command(sim, command, env, cwd):
                 for pat, m in args[3]:
                     pats.append((pat, scan(world, pat) if m == "$glob" else m))
                 args[3] = pats
-            elif name == "register_glob":
-                args[3] = scan(world, args[1])
+            elif name == "register_glob" and args[3] is None:
+                if args[2]:
+                    # named wildcards with substitutions: scan like the real client does
+                    args[3] = nscan(world, args[1], args[2])
+                else:
+                    args[3] = scan(world, args[1])
             reply = await sim.rpc(None, name, *args)
             sim.online_replies.append(reply)
         elif kind == "exit":
@@ -399,6 +403,19 @@ async def online_command(sim, command, env, cwd):
                 except OSError:
                     pass
             return ChildOutcome(0, "", "")
+
+
+def nscan(world, pattern, subs):
+    from stepup.core.nglob import NamedGlob
+
+    cwd = os.getcwd()
+    os.chdir(world.root)
+    try:
+        ng = NamedGlob(pattern, dict(subs))
+        ng.glob()
+        return sorted(str(p) for p in ng.files() if not str(p).startswith(".stepup"))
+    finally:
+        os.chdir(cwd)
 
 
 def scan(world, pattern):
